@@ -304,6 +304,65 @@ func waitPin(r *fakes.CRDTReplica, c string, d time.Duration) bool {
 
 const rulePubsub = "three real CRDT replicas A, B, T on loopback with signed gossipsub: B trusts a generated subset of {A, T} (T always, as the liveness witness), A and T publish generated pins while all are connected; when T's marker pin is visible on B, none of the pins published by an untrusted A may be in B's pinset; after B.Trust(A) a new publication from A must arrive (and everything A published before, through the DAG); with trust-all on B everything arrives; non-trivial = A untrusted at first and published >= 1 pin; distinct by configuration"
 
+const ruleRelay = "three real CRDT replicas in a chain U - T - X (U and X cannot connect): T trusts U and X, X trusts only T, T neither publishes nor rebroadcasts during the observation; U publishes 1-3 pins, which gossipsub relays through T; once T shows them (the relay happened) and a further 1.5 s passed, X must hold none of them: an update signed by a peer X does not trust must not alter X's pinset no matter who delivered it; afterwards T publishes a marker and X must receive it (the path works); non-trivial = always; distinct by parameters"
+
+func TestPubsubRelay(t *testing.T) {
+	leg := ev.L("pubsub-relay", ruleRelay)
+	rapid.Check(t, func(t *rapid.T) {
+		name := fmt.Sprintf("verif-c07r-%d-%d", os.Getpid(), atomic.AddInt64(&caseN, 1))
+		ku, kt, kx := gen.PeerKeys[1], gen.PeerKeys[3], gen.PeerKeys[2]
+		U := fakes.NewCRDTReplica(ku, func(c *crdt.Config) { c.ClusterName = name; c.TrustAll = true })
+		defer U.Close()
+		T := fakes.NewCRDTReplica(kt, func(c *crdt.Config) {
+			c.ClusterName = name
+			c.TrustedPeers = []peer.ID{gen.Peers[1], gen.Peers[2]}
+			c.RebroadcastInterval = time.Hour
+		})
+		defer T.Close()
+		X := fakes.NewCRDTReplica(kx, func(c *crdt.Config) { c.ClusterName = name; c.TrustedPeers = []peer.ID{gen.Peers[3]} })
+		defer X.Close()
+		U.Partition(X)
+		if err := U.Connect(T); err != nil {
+			t.Fatalf("VERIF-INFRA connect: %v", err)
+		}
+		if err := T.Connect(X); err != nil {
+			t.Fatalf("VERIF-INFRA connect: %v", err)
+		}
+		time.Sleep(500 * time.Millisecond) // let gossipsub build the mesh
+		n := rapid.IntRange(1, 3).Draw(t, "n")
+		ctx := context.Background()
+		var fromU []string
+		for i := 0; i < n; i++ {
+			if err := U.Cons.LogPin(ctx, api.PinCid(gen.Cids[i])); err != nil {
+				t.Fatalf("U.LogPin: %v", err)
+			}
+			fromU = append(fromU, gen.Cids[i].String())
+		}
+		for _, c := range fromU {
+			if !waitPin(T, c, 30*time.Second) {
+				leg.Inconclusive("U's pins did not reach T within 30 s")
+				t.Skip("inconclusive")
+			}
+		}
+		time.Sleep(1500 * time.Millisecond)
+		got := pinsOf(X)
+		for _, c := range fromU {
+			if got[c] {
+				t.Fatalf("X trusts only T; the update %s signed by U (untrusted by X) was relayed by T and X applied it", c)
+			}
+		}
+		marker := api.PinCid(gen.Cids[7])
+		if err := T.Cons.LogPin(ctx, marker); err != nil {
+			t.Fatalf("T.LogPin: %v", err)
+		}
+		if !waitPin(X, marker.Cid.String(), 30*time.Second) {
+			leg.Inconclusive("T's marker did not reach X within 30 s")
+			t.Skip("inconclusive")
+		}
+		leg.Case(fmt.Sprintf("n=%d", n), true)
+	})
+}
+
 func TestPubsubTrust(t *testing.T) {
 	leg := ev.L("pubsub-trust", rulePubsub)
 	rapid.Check(t, func(t *rapid.T) {
